@@ -10,6 +10,10 @@ func (sel *Selection) XFind(path *xpath.Path) (*Selection, error) {
 }
 
 func (sel *Selection) XPredicate(p *xpath.Path) (bool, error) {
-	found, err := sel.XFind(p)
+	// a condition is about the data that is there, not about what the request wants to
+	// see of it: fields, content or depth must not hide the leaves the condition reads
+	data := *sel
+	data.Constraints = sel.Browser.baseConstraints()
+	found, err := data.XFind(p)
 	return found != nil, err
 }
